@@ -307,8 +307,8 @@ PROPS["C09"]["structural"] = [
 import contracts.glue as _GL
 _TK = "vectorizers/token_cooccurrence_vectorizer.py::numba_build_skip_grams"
 for _p in ("C04", "C10"):
-    PROPS[_p]["functions"] += sorted(_GL.CONTRACTS) + [_TK]
-PROPS["C03"]["functions"] += [_TK]
+    PROPS[_p]["functions"] += sorted(_GL.CONTRACTS)
+PROPS["C10"]["functions"] += [_TK]   # heavy: verified once, under C10 (the accumulator protocol at the call sites is part of memory safety)
 
 _RX = "vectorizers/preprocessing.py::preprocess_token_sequences#reindex"
 for _p in ("C14", "C13", "C01"):
@@ -320,5 +320,4 @@ PROPS["C14"]["explanation"] = PROPS["C14"]["level_text"]
 PROPS["C06"]["structural"] = [st("ngram_vectorizer.py", "NgramVectorizer.__add__", "no-alias-mutation")]
 
 _NGK = "vectorizers/ngram_token_cooccurence_vectorizer.py::numba_build_skip_grams"
-for _p in ("C03", "C04", "C10"):
-    PROPS[_p]["functions"] += [_NGK]
+PROPS["C10"]["functions"] += [_NGK]
